@@ -5,16 +5,18 @@
 //   R2  ncv < n, exterior target, symmetric / Hermitian / generalized families: asserted strictly
 //   R3  ncv < n and (general family | interior target | wanted eigenvalue exactly zero of a singular matrix):
 //       a wrong set made only of genuine, distinct eigenvalues is finding D13 `krylov_misconvergence`
-// One translation unit per real scalar type (VF_REAL); C04_GENERALIZED / C04_CONTRIB add the five generalized modes
-// and Davidson / PartialSVD / LOBPCG.
+// One translation unit per real scalar type (VF_REAL) and family group: C04_PLAIN = the six standard-problem solvers (user functor
+// operators from vf/families.hpp), C04_GENERALIZED = the five generalized modes (library wrappers), C04_CONTRIB = Davidson / PartialSVD /
+// LOBPCG. The groups are separate units only to keep each compilation short.
 #include "vf/eigen_assert.hpp"
 #include <Eigen/Core>
 #include <Eigen/Sparse>
 #include <Eigen/Eigenvalues>
-#include <Eigen/SVD>
 #include "vf/oracle.hpp"
 #include "vf/solverkit.hpp"
-#include "vf/families.hpp"
+#ifdef C04_PLAIN
+#include "vf/families.hpp"  // counting functor operators and the dispatcher over the six standard-problem solver classes
+#endif
 #include "vf/runner.hpp"
 #include <Spectra/MatOp/DenseSymMatProd.h>
 #ifdef C04_GENERALIZED
@@ -566,7 +568,7 @@ static bool keys_separated(const std::vector<ld>& keys, ld spread, ld frac, ld& 
 }
 
 // The oracle. tolv: tolerance in the transformed variable.
-static void check_selection(const Ref& R, int rule, Index k, const Outcome& o, ld tolv, bool singular_class, vf::Case& c, const std::string& regime, const std::string& fam)
+static bool check_selection(const Ref& R, int rule, Index k, const Outcome& o, ld tolv, bool singular_class, vf::Case& c, const std::string& regime, const std::string& fam)
 {
     VF_CHECK((Index) o.vals.size() == k && o.nconv == (long) k, "count",
              "Successful but compute() returned " << o.nconv << " and eigenvalues() has " << o.vals.size() << " entries (nev=" << k << ")");
@@ -576,6 +578,17 @@ static void check_selection(const Ref& R, int rule, Index k, const Outcome& o, l
     {
         VF_CHECK(std::isfinite((double) l.real()) && std::isfinite((double) l.imag()), "nonfinite", "returned eigenvalue " << l << " with Successful");
         rnu.push_back(nu_of(R.tm, R.sigma, l));
+    }
+    // the tolerance must stay far below half the smallest key gap, otherwise neither direction of the verdict is decidable
+    {
+        ld mg;
+        keys_separated(R.keys, R.spread, 0, mg);
+        if (!(tolv <= mg / 4))
+        {
+            c.cls("tolerance_not_below_gap/4(selection not asserted)");
+            return false;
+        }
+        vf::report().stat("tolerance / smallest key gap (asserted cases)", (double) (tolv / mg));
     }
     // (a) every returned value is a genuine eigenvalue, distinct returned values belong to distinct reference eigenvalues
     std::vector<int> owner(n, -1);
@@ -671,6 +684,7 @@ static void check_selection(const Ref& R, int rule, Index k, const Outcome& o, l
         std::ostringstream wnt;
         for (size_t j : want)
             wnt << " " << R.lam[j];
+        c.cls(std::string(all_genuine ? "mismatch_all_genuine/" : "mismatch_with_spurious_value/") + regime + "/" + fam + (only_zero ? "/missed_only_zero" : ""));
         VF_CHECK(keys_ok, "not_the_selected_set",
                  regime << " " << fam << " " << vf::ALL_RULE_NAMES[rule] << " nev=" << k << ": returned {" << ret.str() << " } but the rule names {" << wnt.str() << " }; missing:" << miss.str()
                         << "; key mismatch " << vf::num(worst) << " > tolerance " << vf::num(tolv) << " (key spread " << vf::num(R.spread) << "); "
@@ -683,10 +697,15 @@ static void check_selection(const Ref& R, int rule, Index k, const Outcome& o, l
         worstv = std::max(worstv, std::abs(R.nu[(size_t) assigned[i]] - rnu[i]));
     vf::report().stat(regime.substr(0, 2) + " key error / tolerance (passing)", (double) (worst / tolv));
     vf::report().stat(regime.substr(0, 2) + " value error / tolerance (passing)", (double) (worstv / tolv));
+    return true;
 }
+
+// tolerance handed to the Krylov solvers: 1e-10, or 64 eps where that is larger (single precision)
+static ld solver_tol() { return std::max((ld) 1e-10, 64 * EPS); }
 
 // ---------------------------------------------------------------------------------------------------------
 // Krylov families
+#if defined(C04_PLAIN) || defined(C04_GENERALIZED)
 struct Plan
 {
     int fam = 0, rule = 0;
@@ -697,7 +716,6 @@ struct Plan
     std::string shape;
 };
 
-static ld solver_tol() { return std::max((ld) 1e-10, 64 * EPS); }
 
 static void krylov_case(vf::Draw& d, vf::Case& c, int fam)
 {
@@ -783,10 +801,11 @@ static void krylov_case(vf::Draw& d, vf::Case& c, int fam)
         vf::report().stat("smallest prescribed key gap / spread (inverse)", (double) (Pp.spread / mg));
     }
     // ---- matrices in the user's scaling, rounded to the scalar type; reference spectrum of the rounded input ----
-    vf::Problem<Real> VP;
+    CMatL Aplain;  // standard problems: the matrix handed to the solver (exactly representable in the scalar type)
     MatL Al, Bl;  // generalized families: (A, B) or (K, KG)
     long b_exp = 0;
     ld condM = 1;
+#ifdef C04_PLAIN
     if (fam == F_SYM || fam == F_SYMSHIFT || fam == F_HERM)
     {
         VecL ev(n);
@@ -808,7 +827,7 @@ static void krylov_case(vf::Draw& d, vf::Case& c, int fam)
             for (Index i = j + 1; i < n; i++)
                 A(j, i) = std::conj(A(i, j));
         }
-        VP.A = A;
+        Aplain = A;
         Eigen::SelfAdjointEigenSolver<CMatL> es(CMatL(A / cld(P.scale)), Eigen::EigenvaluesOnly);
         for (Index i = 0; i < n; i++)
             R.lam.push_back(cld(es.eigenvalues()[i] * P.scale, 0));
@@ -820,12 +839,14 @@ static void krylov_case(vf::Draw& d, vf::Case& c, int fam)
         MatL A = Q * D * Q.transpose() * P.scale;
         Mat As = A.cast<Real>();
         A = As.cast<ld>();
-        VP.A = vf::widen(A);
+        Aplain = vf::widen(A);
         Eigen::EigenSolver<MatL> es(MatL(A / P.scale), false);
         for (Index i = 0; i < n; i++)
             R.lam.push_back(es.eigenvalues()[i] * P.scale);
     }
-    else
+#endif
+#ifdef C04_GENERALIZED
+    if (fam_generalized(fam))
     {
         // pencil (M D M^T, M M^T): generalized eigenvalues are D; buckling: (K, K_G) = (M M^T, M D^-1 M^T)
         int ck = (int) d.range("cond_M", 0, 2);
@@ -863,16 +884,23 @@ static void krylov_case(vf::Draw& d, vf::Case& c, int fam)
         if (fam == F_GBUCK)
         {
             // K_G x = mu K x, lambda = 1 / mu
-            ges.compute(MatL(Al * P.scale / bs), MatL(Bl / bs), Eigen::EigenvaluesOnly | Eigen::ABx_lx);
+            ges.compute(MatL(Al * P.scale / bs), MatL(Bl / bs), Eigen::EigenvaluesOnly | Eigen::Ax_lBx);
             for (Index i = 0; i < n; i++)
                 R.lam.push_back(cld(P.scale / ges.eigenvalues()[i], 0));
         }
         else
         {
-            ges.compute(MatL(Al / (P.scale * bs)), MatL(Bl / bs), Eigen::EigenvaluesOnly | Eigen::ABx_lx);
+            ges.compute(MatL(Al / (P.scale * bs)), MatL(Bl / bs), Eigen::EigenvaluesOnly | Eigen::Ax_lBx);
             for (Index i = 0; i < n; i++)
                 R.lam.push_back(cld(ges.eigenvalues()[i] * P.scale, 0));
         }
+    }
+#endif
+    if ((Index) R.lam.size() != n)
+    {
+        c.rejected = true;
+        c.cls("family not built in this unit");
+        return;
     }
     fill_ref(R, P.rule);
     // the reference spectrum must reproduce the prescription (rounding moves eigenvalues by O(n eps ||A||)) and stay separated
@@ -894,7 +922,10 @@ static void krylov_case(vf::Draw& d, vf::Case& c, int fam)
         {
             c.rejected = true;
             c.cls("generator: reference spectrum of the rounded input left the separated domain (discarded)");
+            c.cls(std::string("discarded/") + FAM_NAMES[fam] + (sep ? "/reference_far_from_prescription" : "/reference_keys_not_separated"));
             c.add_desc(std::string(FAM_NAMES[fam]) + " reference/prescription distance " + vf::num(worst / lmax));
+            if (vf::options().geti("debug", 0))
+                std::fprintf(stderr, "DISCARD %s rule=%d n=%ld scale=1e%ld worst/lmax=%Lg mingap/spread=%Lg sigma=%Lg\n", FAM_NAMES[fam], P.rule, (long) n, P.scale_exp, worst / lmax, mg / R.spread, sigma_unit);
             return;
         }
     }
@@ -954,8 +985,11 @@ static void krylov_case(vf::Draw& d, vf::Case& c, int fam)
     const long maxit = 3000;
     try
     {
+#ifdef C04_PLAIN
         if (!fam_generalized(fam))
         {
+            vf::Problem<Real> VP;
+            VP.A = Aplain;
             static const int MAPF[6] = {vf::FAM_SYM, vf::FAM_HERM, vf::FAM_GEN, vf::FAM_SYMSHIFT, vf::FAM_GENREAL, vf::FAM_GENCPLX};
             VP.family = MAPF[fam];
             VP.n = n;
@@ -969,8 +1003,9 @@ static void krylov_case(vf::Draw& d, vf::Case& c, int fam)
                 run_krylov(*eigs, P.rule, maxit, (Real) tol, o);
             });
         }
+#endif
 #ifdef C04_GENERALIZED
-        else
+        if (fam_generalized(fam))
         {
             Mat As = Al.cast<Real>(), Bs = Bl.cast<Real>();
             const Real sigma = (Real) R.sigma.real();
@@ -1041,17 +1076,21 @@ static void krylov_case(vf::Draw& d, vf::Case& c, int fam)
         return;
     }
     c.nontrivial = true;
-    c.cls(regime + "/" + fr);
-    c.cls(regime + "/" + vf::Sc<Real>::name());
     c.cls("spectrum/" + P.shape);
     if (P.singular)
         c.cls(std::string("singular_class/") + regime + (zero_wanted ? "/zero_wanted" : "/zero_not_wanted"));
     if (interior)
         c.cls("interior_target/" + regime);
     const ld tolv = std::max((ld) 1e-6 * R.spread, 100 * tol * R.numax);
-    check_selection(R, P.rule, P.nev, o, tolv, P.singular, c, regime, FAM_NAMES[fam]);
-    c.cls("selection_verified/" + regime);
+    if (check_selection(R, P.rule, P.nev, o, tolv, P.singular, c, regime, FAM_NAMES[fam]))
+    {
+        // counted only when the oracle was applied and passed
+        c.cls(regime + "/" + fr);
+        c.cls(regime + "/" + vf::Sc<Real>::name());
+        c.cls("selection_verified/" + regime);
+    }
 }
+#endif
 
 // ---------------------------------------------------------------------------------------------------------
 #ifdef C04_CONTRIB
@@ -1128,10 +1167,12 @@ static void davidson_case(vf::Draw& d, vf::Case& c)
         return;
     }
     c.nontrivial = true;
-    c.cls(std::string("R2/DavidsonSymEigsSolver/") + vf::ALL_RULE_NAMES[rule]);
     const ld tolv = std::max((ld) 1e-6 * R.spread, 100 * (ld) tol);
-    check_selection(R, rule, nev, o, tolv, false, c, "R2", "DavidsonSymEigsSolver");
-    c.cls("selection_verified/R2");
+    if (check_selection(R, rule, nev, o, tolv, false, c, "R2", "DavidsonSymEigsSolver"))
+    {
+        c.cls(std::string("R2/DavidsonSymEigsSolver/") + vf::ALL_RULE_NAMES[rule]);
+        c.cls("selection_verified/R2");
+    }
 }
 
 // PartialSVD: prescribed singular values, "the rule" is fixed: the largest ones. Success = every requested value converged.
@@ -1156,9 +1197,14 @@ static void svd_case(vf::Draw& d, vf::Case& c)
     Mat As = A.cast<Real>();
     A = As.cast<ld>();
     Ref R;
-    Eigen::JacobiSVD<MatL> js(MatL(A / scale));
-    for (Index i = 0; i < p; i++)
-        R.lam.push_back(cld(js.singularValues()[i] * scale, 0));
+    // reference singular values: square roots of the eigenvalues of the smaller Gram matrix in long double (cond(A) <= 6, so squaring costs nothing)
+    {
+        MatL An = A / scale;
+        MatL G = (m <= nn) ? MatL(An * An.transpose()) : MatL(An.transpose() * An);
+        Eigen::SelfAdjointEigenSolver<MatL> gs(MatL((G + G.transpose()) / 2), Eigen::EigenvaluesOnly);
+        for (Index i = 0; i < p; i++)
+            R.lam.push_back(cld(std::sqrt(std::max((ld) 0, gs.eigenvalues()[i])) * scale, 0));
+    }
     const int rule = 3;  // LargestAlge on the singular values
     fill_ref(R, rule);
     ld mg;
@@ -1197,11 +1243,13 @@ static void svd_case(vf::Draw& d, vf::Case& c)
         return;
     }
     c.nontrivial = true;
-    c.cls(regime + "/PartialSVDSolver/largest");
     // the solver's test acts on sigma^2: |d sigma| <= tol sigma / 2
     const ld tolv = std::max((ld) 1e-6 * R.spread, 100 * tol * R.numax);
-    check_selection(R, rule, ncomp, o, tolv, false, c, regime, "PartialSVDSolver");
-    c.cls("selection_verified/" + regime);
+    if (check_selection(R, rule, ncomp, o, tolv, false, c, regime, "PartialSVDSolver"))
+    {
+        c.cls(regime + "/PartialSVDSolver/largest");
+        c.cls("selection_verified/" + regime);
+    }
 }
 
 // LOBPCG: the k smallest eigenvalues, well separated from the rest; dense random start block
@@ -1270,7 +1318,6 @@ static void lobpcg_case(vf::Draw& d, vf::Case& c)
         return;
     }
     c.nontrivial = true;
-    c.cls("R2/LOBPCGSolver/smallest");
     // the test is absolute: column residual norm < tol * n
     const ld tolv = std::max((ld) 1e-6 * R.spread, 100 * (ld) tol * (ld) n);
     // orthonormality of the iterate is C17's matter (finding KF-C17-3); recorded as a feature so that a failure here can be attributed
@@ -1279,8 +1326,11 @@ static void lobpcg_case(vf::Draw& d, vf::Case& c)
         MatL Xl = X.cast<ld>();
         c.feat["lobpcg_gram_error"] = (double) vf::maxabs(MatL(Xl.transpose() * Xl - MatL::Identity(k, k)));
     }
-    check_selection(R, rule, k, o, tolv, false, c, "R2", "LOBPCGSolver");
-    c.cls("selection_verified/R2");
+    if (check_selection(R, rule, k, o, tolv, false, c, "R2", "LOBPCGSolver"))
+    {
+        c.cls("R2/LOBPCGSolver/smallest");
+        c.cls("selection_verified/R2");
+    }
 }
 #endif
 
@@ -1288,7 +1338,12 @@ static void lobpcg_case(vf::Draw& d, vf::Case& c)
 static void run_case(vf::Draw& d, vf::Case& c)
 {
     // weights: symmetric-type Krylov families 5 (one per rule), general families 6, contrib 3 / 3 / 2
-    static const int W[F_COUNT] = {5, 5, 6, 5, 6, 6,
+    static const int W[F_COUNT] = {
+#ifdef C04_PLAIN
+        5, 5, 6, 5, 6, 6,
+#else
+        0, 0, 0, 0, 0, 0,
+#endif
 #ifdef C04_GENERALIZED
                                    5, 5, 5, 5, 5,
 #else
@@ -1316,14 +1371,16 @@ static void run_case(vf::Draw& d, vf::Case& c)
     }
     c.cls(std::string("family/") + FAM_NAMES[fam]);
     c.sfeat["family"] = FAM_NAMES[fam];
+#if defined(C04_PLAIN) || defined(C04_GENERALIZED)
     if (fam_krylov(fam))
         krylov_case(d, c, fam);
+#endif
 #ifdef C04_CONTRIB
-    else if (fam == F_DAVIDSON)
+    if (fam == F_DAVIDSON)
         davidson_case(d, c);
     else if (fam == F_SVD)
         svd_case(d, c);
-    else
+    else if (fam == F_LOBPCG)
         lobpcg_case(d, c);
 #endif
 }
